@@ -223,6 +223,31 @@ func genC16(r *Run) {
 				r.Fail("decap-encap", trunc(cs, 2000), "")
 			}
 		}
+		// (1a) a chain that is cut short below the top: some relay level carries no relayed message.  There is no inner
+		// message to answer, so there is no relay-reply: the builder and the inner-message accessor report it, at every
+		// depth and wherever the cut is
+		if i%4 == 0 {
+			bare := append(append(append([]byte{12, 0}, r.Addr16()...), r.Addr16()...), tlvb(18, r.Bytes(3))...)
+			tw := bare
+			for d := 1 + r.Rng.Intn(4); d > 0; d-- {
+				tw = append(append(append([]byte{12, byte(d)}, r.Addr16()...), r.Addr16()...), tlvb(9, tw)...)
+				if r.Rng.Intn(2) == 0 {
+					tw = append(tw, tlvb(37, append(w32(9), 'r'))...)
+				}
+			}
+			r.Add(eV6RelayRepl, tw, rw)
+			r.Add(eV6Inner, tw)
+			if tm, err := dhcpv6.FromBytes(append([]byte{}, tw...)); err == nil {
+				if rel, ok := tm.(*dhcpv6.RelayMessage); ok {
+					if rr, err := dhcpv6.NewRelayReplFromRelayForw(rel, reply); err == nil {
+						r.Fail("relay-reply-for-truncated-chain", trunc(hx(tw), 1500), fmt.Sprintf("a relay-reply (%d octets) was built for a chain whose innermost relay carries no message", len(rr.ToBytes())))
+					}
+					if _, err := rel.GetInnerMessage(); err == nil {
+						r.Fail("inner-message-of-truncated-chain", trunc(hx(tw), 1500), "GetInnerMessage succeeded on a chain whose innermost relay carries no message")
+					}
+				}
+			}
+		}
 		// (1b) the caller's link / peer address in whatever form a net.IP takes (16 octets, 4 octets, nil, other):
 		// on the wire it is the address's 16-octet form (the unspecified address if it has none)
 		{
